@@ -177,16 +177,17 @@ def removeAll (L : List Path) (t : Entry) : Entry := L.foldl (fun t p => (remove
 
 /-- `unflatten_keys(sep)` on a plain dict: every root key containing the separator is moved to its split path
 (`v = d.pop(k); d[k.split(sep)] = v`), refusing to overwrite; earlier moves persist when a later one is refused -/
-def specUnflattenLoop (sep : Char) : List String → Entry → Entry × Out
+def specUnflattenLoop (sep : String) : List String → Entry → Entry × Out
   | [], t => (t, .ok)
   | k :: ks, t =>
-    if k.toList.contains sep then
-      match specRename [k] (splitKey sep k) true t with
+    if sepIn sep k then
+      match specRename [k] (splitKeyS sep k) true t with
       | (t', .err e) => (t', .err e)
       | (t', _) => specUnflattenLoop sep ks t'
     else specUnflattenLoop sep ks t
 
-def specUnflatten (sep : Char) (inplace : Bool) (t : Entry) : Entry × Out :=
+def specUnflatten (sep : String) (inplace : Bool) (t : Entry) : Entry × Out :=
+  if sep = "" ∧ rootKeys t ≠ [] then (t, .err .value) else
   match specUnflattenLoop sep (rootKeys t) t with
   | (t', .err e) => if inplace then (t', .err e) else (t, .err e)
   | (t', _) => if inplace then (t', .ok) else (t, .res [t'])
@@ -301,6 +302,17 @@ def dstep (t : Entry) : Op → Entry × Out
     else (t, .err .key)
   | .split sets inplace strict => specSplit sets inplace strict t
   | .select keys strict inplace => specSelect keys strict inplace t
+
+/-- the replay for a member of a lazy stack: `unflatten_keys` visits the root keys in sorted order -/
+def specUnflattenL (sep : String) (inplace : Bool) (t : Entry) : Entry × Out :=
+  if sep = "" ∧ rootKeys t ≠ [] then (t, .err .value) else
+  match specUnflattenLoop sep (sortBy id (rootKeys t)) t with
+  | (t', .err e) => if inplace then (t', .err e) else (t, .err e)
+  | (t', _) => if inplace then (t', .ok) else (t, .res [t'])
+
+def dstepMember (t : Entry) : Op → Entry × Out
+  | .unflatten sep inplace => specUnflattenL sep inplace t
+  | op => dstep t op
 
 def drun (t : Entry) : List Op → Entry
   | [] => t
